@@ -46,6 +46,8 @@ def render(n, pre='self.'):
         if n[1] == 'rem':
             return f"cohdl.op.rem({a}, {b})"
         return f"({a} {n[1]} {b})"
+    if k == 'nf':
+        return n[1]                       # Null / Full (only as the right operand of == and !=)
     if k == 'cmp':
         return f"({render(n[2], pre)} {n[1]} {render(n[3], pre)})"
     if k == 'un':
@@ -92,6 +94,16 @@ def evaluate(n, env):
         return mv.INT(n[1])
     if k == 'lit':
         return MV(n[1], n[2] if n[1] != 'bit' else None, n[3])
+    if k == 'cmp' and n[3][0] == 'nf':
+        # x == Full: every bit set; x == Null: no bit set (documented for vectors and Bit)
+        a = evaluate(n[2], env)
+        if a is SKIP:
+            return SKIP
+        if n[1] not in ('==', '!=') or a.kind not in ('bit', 'bv', 'u', 's'):
+            raise Reject("Null/Full comparison")
+        w = 1 if a.kind == 'bit' else a.w
+        eq = a.v == ((1 << w) - 1 if n[3][1] == 'Full' else 0)
+        return mv.BOOL(eq if n[1] == '==' else not eq)
     if k in ('bin', 'cmp'):
         a = evaluate(n[2], env)
         b = evaluate(n[3], env)
